@@ -34,7 +34,7 @@ STRINGS = [
 
 
 def n_cases(tier):
-    return 8000 if tier == "quick" else 200000
+    return 8000 if tier == "quick" else 500000
 
 
 def _audit(event, args):
